@@ -14,6 +14,13 @@ import (
 	"google.golang.org/grpc/status"
 	"google.golang.org/protobuf/proto"
 	"google.golang.org/protobuf/types/known/anypb"
+
+	// link the message types the detail generator uses, so that they resolve (a conversion that
+	// decodes and re-encodes a detail of a registered type would canonicalise its bytes)
+	_ "google.golang.org/genproto/googleapis/rpc/errdetails"
+	_ "google.golang.org/protobuf/types/known/durationpb"
+	_ "google.golang.org/protobuf/types/known/structpb"
+	_ "google.golang.org/protobuf/types/known/wrapperspb"
 )
 
 func init() {
@@ -25,6 +32,7 @@ func init() {
 	verifKinds["c18.percent"] = verifC18Percent
 	verifKinds["c18.unpercent"] = verifC18Unpercent
 	verifKinds["c18.b64"] = verifC18B64
+	verifKinds["c18.alias_md"] = verifC18AliasMD
 }
 
 func verifC18Perr(v vsx) *conformancev1.Error {
@@ -175,4 +183,71 @@ func verifC18B64(args []vsx) vsx {
 		dec = vL(vB(d))
 	}
 	return vL(dec, vS(connect.EncodeBinaryHeader(args[0].b)))
+}
+
+// ---- histories: the converted structures are used further ---------------------------------
+func verifC18Spare(vals []string) []string {
+	out := make([]string, len(vals), len(vals)+4)
+	copy(out, vals)
+	return out
+}
+
+func verifC18AppendAll(m map[string][]string, x string) {
+	keys := make([]string, 0, len(m))
+	for k := range m {
+		keys = append(keys, k)
+	}
+	sort.Strings(keys)
+	for _, k := range keys {
+		m[k] = append(m[k], x)
+	}
+}
+
+// fn headers x1 x2 -> (A after the conversion, A at the end, B at the end): A and B come from
+// the SAME source; x1 is appended to every value list of A, x2 to every value list of B, then
+// the source's arrays are scribbled over and its slices appended to
+func verifC18AliasMD(args []vsx) vsx {
+	fn, x1, x2 := args[0].i, args[2].str(), args[3].str()
+	switch fn {
+	case 3:
+		src := verifC18Headers(args[1])
+		for _, h := range src {
+			h.Value = verifC18Spare(h.Value)
+		}
+		a := ConvertProtoHeaderToMetadata(src)
+		img0 := verifC18MDOut(a)
+		b := ConvertProtoHeaderToMetadata(src)
+		verifC18AppendAll(a, x1)
+		verifC18AppendAll(b, x2)
+		for _, h := range src {
+			for i := range h.Value {
+				h.Value[i] = "#"
+			}
+			h.Value = append(h.Value, "#")
+		}
+		return vL(img0, verifC18MDOut(a), verifC18MDOut(b))
+	case 4:
+		src := metadata.MD{}
+		for _, h := range verifC18Headers(args[1]) {
+			src[h.Name] = verifC18Spare(h.Value)
+		}
+		a := ConvertMetadataToProtoHeader(src)
+		img0 := verifC18HeadersOut(a)
+		b := ConvertMetadataToProtoHeader(src) // the same metadata converted once more
+		sort.SliceStable(b, func(i, j int) bool { return b[i].Name < b[j].Name })
+		for _, h := range a {
+			h.Value = append(h.Value, x1)
+		}
+		for _, h := range b {
+			h.Value = append(h.Value, x2)
+		}
+		for k, vs := range src {
+			for i := range vs {
+				vs[i] = "#"
+			}
+			src[k] = append(vs, "#")
+		}
+		return vL(img0, verifC18HeadersOut(a), verifC18HeadersOut(b))
+	}
+	return vL(vS("bad-case"))
 }
